@@ -186,6 +186,24 @@ def extraction(ctx: Ctx, I: Interp, tag: SNew) -> None:
         eff = l.effects[start:]
         mem = [(a, v) for a, v in l.atoms if isinstance(a, tuple) and a[0] == "in" and (l.run.atom_info.get(a) or {}).get("item") is el]
         eqs = [(a, v) for a, v in l.atoms if isinstance(a, tuple) and a[0] == "eq"]
+        def _is_findall_(o_: Any) -> bool:
+            return isinstance(o_, SOpaque) and (o_.__dict__.get("extcall") or {}).get("q") == "re.findall"
+        itv = rec.iter_value
+        bc_ = (itv.meta.get("call") if isinstance(itv, SObj) else itv.__dict__.get("call") if isinstance(itv, SOpaque) else None) or {}
+        by_fromkeys = _fromkeys_of(itv, _is_findall_) or (getattr(bc_.get("func"), "qual", "") == "unique" and len(bc_.get("args") or []) == 1
+                                                           and _is_findall_(bc_["args"][0]) and _unique_is_fromkeys(ctx, I))
+        if by_fromkeys and not mem:
+            # for s in dict.fromkeys(found): deps.append(HTMLDependency(**json.loads(s)))  - distinct serialisations in order of first appearance
+            apps = [e for e in eff if e.kind == "mutcall" and e.key == "append"]
+            dep = apps[0].value[0] if len(apps) == 1 and apps[0].value else None
+            okc = isinstance(dep, SNew) and dep.cls_name == "HTMLDependency" and len(dep.dstar) == 1 and not dep.args and not dep.kwargs
+            src = dep.dstar[0] if okc else None
+            okj = isinstance(src, SOpaque) and (src.__dict__.get("extcall") or {}).get("q") == "json.loads" and src.__dict__["extcall"]["args"][0] is el
+            ctx.check(bool(okc and okj) and l.kind in ("fall", "continue"), "C13.dedup",
+                      "every distinct serialisation (dict.fromkeys order) is rebuilt as HTMLDependency(**json.loads(text)) and appended", EXT,
+                      f"loop over {short(itv)}: appends {[short(e.value[0]) for e in apps]} -> {l.kind}",
+                      "a distinct serialisation is not (only) rebuilt with HTMLDependency(**json.loads(text)) and appended in order")
+            continue
         if eqs and not mem:
             ctx.fail("C13.dedup", EXT, "duplicate test by equality with one remembered value",
                      "a serialisation is only compared with one remembered string (the previous one), not with all earlier ones: identical copies separated by another "
@@ -227,6 +245,8 @@ def extraction(ctx: Ctx, I: Interp, tag: SNew) -> None:
         tail = "".join(chr(x[1]) for x in rest[1:] if x[0] == sre_c.LITERAL)
         ctx.check(okg and tail == "</script>" and len(rest[1:]) == len(tail), "C13.pattern", "the body group is lazy and the terminator is the literal </script>", EXT,
                   f"pattern tail {tail!r} lazy={okg}", "the pattern's body group is greedy or its terminator is not '</script>': one match swallows several serialised scripts")
+        ctx.check(re.compile(pat).groups == 1, "C13.pattern", "the pattern has exactly one capturing group (the payload)", EXT, f"{re.compile(pat).groups} groups",
+                  "the extraction pattern does not have exactly one capturing group: findall() / group(1) no longer yield the JSON payload")
         if okg:
             body = re.compile(pat)
             m = body.search(want + "a\nb\r\n</script>")
